@@ -126,8 +126,55 @@ def run(ctx):
                     bad = 'destination incomplete but neither an error update was delivered nor did copy() return an error'
             if bad:
                 ctx.violation(f'{label}.json', dict(info, monitor=m, transferred=transferred), f'C12: {bad} ({driver}, {updater}, block {bsize}, plan {plan})')
+        # ---- a genuinely short copy_file_range on a block that is NOT the last of its file (parblock): the retry must ask for the
+        # remainder only, and the block's Copied update must be the block's length — never more than was announced
+        for i in range(6 if ctx.quick else 40):
+            shutil.rmtree(root + '/S', ignore_errors=True); shutil.rmtree(root + '/D', ignore_errors=True)
+            os.makedirs(root + '/S')
+            lens = [4096 * 5, 4096 * 3 + 17, 100, 4096 * 2]
+            for k, ln in enumerate(lens):
+                with open(f'{root}/S/f{k}', 'wb') as fh: fh.write(os.urandom(ln))
+            total = sum(lens)
+            updater = ['record', 'channel'][i % 2]
+            victim, blk, short = rng.choice([(0, 1, 1000), (0, 3, 1), (1, 0, 4095), (1, 2, 2000), (3, 0, 7)])
+            plan = [f'clamp copy_file_range D/f{victim} {blk * 4096} 1 {short}']
+            argv = ['--driver', 'parblock', '--workers', str(rng.choice([1, 2, 8])), '--block-size', '4096', '--updater', updater, '--', 'S', 'D']
+            r = scen.run_xcp(root, argv, plan=plan, timeout=120, binary=probe)
+            ups, result, closed = parse_stream(r.stdout_full if hasattr(r, 'stdout_full') else r.stdout)
+            fired = any('clamp_from' in e for e in r.trace)
+            ctx.count('short_block.' + ('fired' if fired else 'not_fired')); ctx.count(f'result.{result}')
+            ctx.case(('short-block', i, updater, tuple(plan)), fired)
+            m = core.ask(core.MODEL, [f"updates {0 if updater == 'record' else 4096} | {' '.join(ups)}"])[0]
+            kv = dict(t.split('=') for t in m.split()[1:]) if m.startswith('ok') else {}
+            bad = None
+            if result != 'ok' or not kv:
+                bad = f'copy with one short block failed or the stream is unreadable: result {result}, monitor {m}'
+            elif kv['prefix'] != 'true' or int(kv['copied']) > total:
+                bad = f"more bytes reported copied ({kv['copied']}) than announced/exist ({total})"
+            elif int(kv['size']) != total or (updater == 'record' and int(kv['copied']) != total):
+                bad = f"announced {kv['size']} / copied {kv['copied']} differ from the files' total {total}"
+            elif updater == 'record' and any(u.startswith('c') and int(u[1:]) > 4096 for u in ups):
+                bad = f'a Copied update larger than the block size: {[u for u in ups if u.startswith("c") and int(u[1:]) > 4096][:3]}'
+            if bad:
+                ctx.violation(f'short-block-{i}.json', dict(argv=argv, plan=plan, lens=lens, stream=ups[:100], monitor=m), f'C12: {bad} (parblock, {updater}, plan {plan})')
+        # ---- a destination left by an EARLIER copy in which a link has since been re-pointed in the source: either the link is
+        # brought up to date or an error is reported — never 'Ok' with the stale link in place
+        for i in range(4 if ctx.quick else 16):
+            shutil.rmtree(root + '/S', ignore_errors=True); shutil.rmtree(root + '/D', ignore_errors=True)
+            os.makedirs(root + '/S/rel/v1'); os.makedirs(root + '/S/rel/v2'); os.makedirs(root + '/D/S/rel')
+            open(root + '/S/rel/v2/x', 'wb').write(b'2'); open(root + '/S/a', 'wb').write(b'a')
+            os.symlink('rel/v2', root + '/S/current'); os.symlink('rel/v1', root + '/D/S/current')
+            driver = ['parfile', 'parblock'][i % 2]; updater = ['record', 'channel', 'noop', 'record'][i % 4]
+            argv = ['--driver', driver, '--workers', str(rng.choice([1, 4])), '--block-size', '4096', '--updater', updater, '--', 'S', 'D']
+            r = scen.run_xcp(root, argv, timeout=120, binary=probe)
+            ups, result, closed = parse_stream(r.stdout_full if hasattr(r, 'stdout_full') else r.stdout)
+            ctx.count(f'stale_link.result.{result}'); ctx.case(('stale-link', i, driver, updater), True)
+            stale = os.readlink(root + '/D/S/current') != 'rel/v2'
+            if stale and result == 'ok' and 'e' not in ups:
+                ctx.violation(f'stale-link-{i}.json', dict(argv=argv, stream=ups[:50], result=result, dest_link=os.readlink(root + '/D/S/current')),
+                              f'C12: destination incomplete (D/S/current still points to {os.readlink(root + "/D/S/current")!r}, the source link to rel/v2) but no error update and copy() returned Ok ({driver}, {updater})')
     ctx.cov['rule'] = ('trees of 1..40 (thorough 300) files of length {0,1,7,100,max,random} plus a link and a fifo x driver x workers {1,2,8} x block {7,4096,1MB,u64::MAX} x updater {recording (optionally stalling in send(Size)), '
-                       'ChannelUpdater, Noop} x half under perturbed schedules x 30% with one injected fault. distinct = distinct case; non-trivial = some file non-empty')
+                       'ChannelUpdater, Noop} x half under perturbed schedules x 30% with one injected fault; one genuinely short copy_file_range on a middle block (parblock); a stale link left by an earlier copy. distinct = distinct case; non-trivial = some file non-empty')
     ctx.assumptions += ["crossbeam's channel is linearizable (appends atomic)", 'bytes actually transferred = sum of the positive returns of data-moving calls on destination files in the trace']
 
 
